@@ -1,6 +1,7 @@
 package main
 
 import (
+	"regexp"
 	"fmt"
 	"strings"
 	"go/token"
@@ -393,6 +394,15 @@ func (fr *frame) exec(in ssa.Instruction, st *State, reach string) {
 					if t, ok := cl.Bindings[k].(Term); ok {
 						env.vars[fv.Name()] = CVal{t, fv.Type()}
 					}
+				}
+				mentioned := false
+				for _, c := range ct.Captures {
+					if regexp.MustCompile(`\b` + regexp.QuoteMeta(fv.Name()) + `\b`).MatchString(c.Src) {
+						mentioned = true
+					}
+				}
+				if !mentioned {
+					continue // only the captured variables the clauses talk about have to be stable
 				}
 				if al := cellAlloc(i.Bindings[k]); al == nil || !singleStore(al) || !privateCell(al) {
 					okCells = false
